@@ -364,7 +364,7 @@ func c02EntryPoints(e *liquid.Engine, src string, b func() map[string]any) (name
 
 func c02Families(tier string) []explore.Family {
 	bound := 1
-	sizes := []int{2, 3, 4, 8, 12}
+	sizes := []int{2, 3, 4, 8, 12, 13, 20, 27}
 	if tier == "thorough" {
 		bound = 3
 	}
@@ -409,6 +409,9 @@ func c02Families(tier string) []explore.Family {
 		b := bound
 		if b > 2 && c.n > 4 {
 			b = 2 // 16 answers per choice point: the third deviation level is explored for the small maps only
+		}
+		if c.n > 12 {
+			b = 1 // 4-8 buckets x 8 offsets per choice point
 		}
 		execs := c02Explore(r, tpl, func() map[string]any { return c02Bindings(c.n, c.order) }, base, b, func(choices []int) any {
 			return map[string]any{"template": src, "map_entries": c.n, "insertion_order": c.order, "iteration_start_choices": choices}
@@ -511,13 +514,13 @@ func init() {
 	explore.Register(&explore.Prop{
 		ID:    "C02",
 		Level: "model_checking",
-		Rule: "map order: 19 map-consuming templates (for with modifiers, tablerow, object, every array filter, nested maps, assign, include, capture, contains, IterationKeyedMap, MapSlice, typed map) x maps of 2,3,4,8,12 entries x insertion orders (all n! for n<=4, cyclic shifts + reversal beyond); " +
+		Rule: "map order: 19 map-consuming templates (for with modifiers, tablerow, object, every array filter, nested maps, assign, include, capture, contains, IterationKeyedMap, MapSlice, typed map) x maps of 2,3,4,8,12,13,20,27 entries (up to 8 buckets) x insertion orders (all n! for n<=4, cyclic shifts + reversal beyond); " +
 			"every Go map-iteration start during the render is an environment choice point owned by the harness through a runtime overlay; deviation-bounded DFS over all answers (<=1 deviation quick, <=3 thorough), executions run to completion, outputs must equal the canonical one; " +
 			"entry points: every template of a ~400-template pool (the repository's own test templates + fault pool) through 6 entry points, 3 re-renders of one parsed template, each entry point again right after a render that failed half-way and after an unrelated render, fresh engine, bindings rebuilt per call; two fresh processes render the pool and must agree (digest); thorough adds the command-line tool as a sub-process; " +
 			"state = choice-vector prefix; transition = one deviation taken; trace = one execution of the real render under that environment",
 		Assumptions: []string{
 			"the runtime seam is tied to go1.23's bucket maps: tools/rtseam.sh verifies its anchors and the check reports exhaustive:false when they are missing",
-			"maps above 13 entries (more than 2 buckets) are not enumerated; hash seeds are pinned so bucket placement is reproducible",
+			"maps above 27 entries (more than 8 buckets) are not enumerated; hash seeds are pinned so bucket placement is reproducible",
 			"date 'now' and time zones are excluded (documented exceptions); TZ=UTC",
 		},
 		Setup: func(string) {
